@@ -136,6 +136,15 @@ def model_of_trainer(ot):
 
 
 N_PREFIXED = [0]
+
+
+class _Refuses:
+    """stands for a scorer that could not load the ruleset"""
+    def parse(self, s):
+        return -2
+
+
+REFUSES = _Refuses()
 n_model_drained = [0]
 n_reordered = [0]
 n_counted_only = [0]
@@ -351,8 +360,11 @@ def main(pid, tier, seed):
                 ot.grammar[txt(key)] = {'ip_level': lv, 'ep_level': 0, 'ip_count': 0, 'ep_count': 0, 'cp_count': 0, 'next_letter': {}}
             for key, lv in m['cp']:
                 ot.grammar[txt(key[:-1])]['next_letter'][alphabet[key[-1] - 1]] = (lv, 1)
-            with contextlib.redirect_stderr(io.StringIO()):
-                sc = OmenScorer(base, 'utf-8', 18)
+            with contextlib.redirect_stderr(io.StringIO()), contextlib.redirect_stdout(io.StringIO()):
+                try:
+                    sc = OmenScorer(base, 'utf-8', 18)
+                except Exception:
+                    sc = REFUSES          # the scorer cannot load the ruleset: it rates nothing (-2 never equals a level)
             g = omen.load_real(od)
             model, ids = omen.neutral_model(od)
             where = {}
@@ -380,8 +392,11 @@ def main(pid, tier, seed):
             ot = res['captured']['omen_trainer']
             model, ids = model_of_trainer(ot)
             od = os.path.join(res['dir'], 'Omen')
-            with contextlib.redirect_stderr(io.StringIO()):
-                sc = OmenScorer(res['dir'], 'utf-8', 18)
+            with contextlib.redirect_stderr(io.StringIO()), contextlib.redirect_stdout(io.StringIO()):
+                try:
+                    sc = OmenScorer(res['dir'], 'utf-8', 18)
+                except Exception:
+                    sc = REFUSES
             g = omen.load_real(od)
             lmax = 12           # (levels >= 10 are where lengths and initial n-grams that training never saw live)
             where = {}
